@@ -124,8 +124,13 @@ def _validate(p, v, wd, trace_files, seed, coverage, controls=True):
             k = f["line"] - c["first_line"] - 1
             ev = c["lines"][k] if 0 <= k < len(c["lines"]) else None
             sig = _signature(p, c["reset"], ev)
+            if f.get("why"):
+                sig["why"] = f["why"]
+            rs = c["reset"]
+            if rs.get("ev") == "one":
+                rs = {kk: vv for kk, vv in rs.items() if kk not in ("toks", "in", "out") or len(json.dumps(vv)) < 3000}
             v.report(sig, {"driver": p.driver, "trace_spec": module, "input": c["reset"].get("input"),
-                           "reset": c["reset"], "events": c["lines"][:k + 1][-40:], "rejected_event": ev,
+                           "reset": rs, "events": c["lines"][:k + 1][-40:], "rejected_event": ev,
                            "rejected_at_event_index": k},
                      what="trace rejected by %s at event %d of case %s" % (module, k, cid))
     coverage["trace_events"] = total_events
@@ -457,3 +462,68 @@ reg(P("C19", "push", "c19",
       sig_reset=("mode", "scenario"), sig_event=("ev",),
       mutate=_c19_mutate, design_ref="DESIGN.md §6 C19",
       technique="TLC model checking of Push.tla (NoDeadLetter, Conservation, InOrder, liveness of the time-out handshake) + TLC trace validation of real broker runs against the linearizable PushMonitor"))
+
+
+import re as _re
+
+
+def _fmt_sig(reset, event):
+    """Signature of a rejected round trip: where (leaf kind, constructor chain), which oracle, what message."""
+    r = reset
+    shape = r.get("shape", "")
+    leaf = r.get("leaf", "")
+    ctor = shape.replace(leaf, "_") if leaf and leaf in shape else shape
+    if r.get("encpanic", "none") != "none":
+        oracle, detail = "encpanic", r["encpanic"]
+    elif r.get("encerr", "none") != "none":
+        oracle, detail = "encerr", r["encerr"]
+    elif r.get("decpanic", "none") != "none":
+        oracle, detail = "decpanic", r["decpanic"]
+    elif r.get("outfault", "none") != "none":
+        oracle, detail = "outfault", "decoded value holds a wild pointer"
+    elif r.get("decerr", "none") != "none":
+        oracle, detail = "decerr", r["decerr"]
+    else:
+        oracle, detail = "mismatch", ""
+    detail = _re.sub(r"0x[0-9a-f]+", "0x..", detail)[:60]
+    return {"leaf": leaf, "ctor": ctor, "oracle": oracle, "detail": detail, "class": r.get("class", ""), "mode": r.get("mode", "")}
+
+
+def _fmt_mutate_c01(rec):
+    if rec.get("ev") == "one" and rec.get("kind") == "rt" and rec.get("out", {}).get("root", {}).get("k") == "int":
+        rec["out"]["root"]["v"] = rec["out"]["root"]["v"] + "1"
+        return rec
+    return None
+
+
+def _fmt_mutate_c03(rec):
+    if rec.get("ev") == "one" and rec.get("toks") and len(rec["toks"]) >= 2:
+        rec["toks"] = rec["toks"][:-1]
+        return rec
+    return None
+
+
+_FMT_ASSUME = ["the byte lexer and the projection Abs of the harness are trusted (independent of /repo/io, ~700 lines)",
+               "digit-level number formatting is delegated to strconv / math/big in the lexer",
+               "scalars are atoms for TLC: compared by equality, never computed with"]
+reg(P("C01", "format", "c01",
+      mc={"quick": [("FormatSelf", "FormatSelf.cfg", 600)], "thorough": [("FormatSelf", "FormatSelf_big.cfg", 1500)]},
+      traces=[("", "FormatTraceC01", "FormatTraceC01.cfg")],
+      level="model_checking",
+      rule="cases = type shapes (leaf kinds under pointer, slice, array 0/1/3, map incl. the 15x15 specialised key/value "
+           "pairs, anonymous struct field + shared pointer fields, interface, 2-D slices, hand-declared named / tagged / "
+           "embedded / all-widths / special-types structs; depth 2 for all leaves in thorough) x boundary value classes x "
+           "{simple, reference}; distinct = (shape, value class, mode); non-trivial = all but the 8 bare bool/zero cells",
+      assumptions=_FMT_ASSUME, sig_fn=_fmt_sig, mutate=_fmt_mutate_c01, design_ref="DESIGN.md §6 C01",
+      technique="TLC evaluates HproseFormat!C01OK (SameValue over abstract value graphs) on every recorded round trip; generator-recogniser self check by TLC"))
+reg(P("C03", "format", "c03",
+      mc={"quick": [("FormatSelf", "FormatSelf.cfg", 600)], "thorough": [("FormatSelf", "FormatSelf_big.cfg", 1500)]},
+      traces=[("", "FormatTraceC03", "FormatTraceC03.cfg")],
+      level="model_checking",
+      rule="cases = the C01 space; for each the encoder's bytes are lexed independently and TLC parses the tokens with the "
+           "HproseFormat recogniser (lengths in UTF-16 units, counts, class tables, reference indices, nothing after "
+           "the value) and checks that the denotation matches the input (WireMatch); plus sequences of values written "
+           "to one encoder",
+      assumptions=_FMT_ASSUME + ["the grammar is the published Hprose serialization grammar as transcribed in HproseFormat.tla"],
+      sig_fn=_fmt_sig, mutate=_fmt_mutate_c03, design_ref="DESIGN.md §6 C03",
+      technique="TLC runs the HproseFormat recogniser (Parse) and the WireMatch contract on the token stream of every real encoder output"))
